@@ -394,11 +394,12 @@ fn judge(acc: &mut Acc, case: &Value, out: &Value) {
             return;
         }
         if verdict == "ok" {
-            // Acceptance despite the fault is the business of C01/C02/C06/C07/C15.
-            acc.note("accepted-despite-fault(not judged here)");
-            return;
+            // The acceptance itself is the business of C01/C02/C06/C07/C15. What is judged here
+            // also then: the faulty layout does not pass the stage the fault sits at, so none of
+            // its inspections may have been started.
+            acc.note("accepted-despite-fault(the acceptance itself is not judged here)");
         }
-        // verification failed at a stage before the inspections of the faulty layout
+        // the faulty layout fails a stage that precedes its inspections
         let cls = faults.iter().map(|f| fault_class(f)).collect::<Vec<_>>().join("+");
         let outer_must_not_run = true; // any fault (outer, or inner = failing sub-layout) precedes outer inspections
         if outer_must_not_run {
@@ -406,14 +407,14 @@ fn judge(acc: &mut Acc, case: &Value, out: &Value) {
                 if sentinel.contains(i) {
                     acc.violation(
                         &format!("inspection-ran-although-stage-failed:{cls}"),
-                        &format!("inspection command {i} was executed although verification failed at an earlier stage ({cls})"),
+                        &format!("inspection command {i} was executed although the layout does not pass an earlier stage ({cls}; verdict: {verdict})"),
                         witness,
                     );
                 }
                 if link_files.contains(&format!("{i}.link")) {
                     acc.violation(
                         &format!("inspection-link-written-although-stage-failed:{cls}"),
-                        &format!("{i}.link was written although verification failed at an earlier stage ({cls})"),
+                        &format!("{i}.link was written although the layout does not pass an earlier stage ({cls}; verdict: {verdict})"),
                         witness,
                     );
                 }
@@ -511,7 +512,7 @@ pub fn run(tier: Tier) -> i32 {
         "all vectors with 0 faults (all commands x rules x positions) and with 1 fault (3 commands x 2 rules)".into()
     };
     c.assume("real /bin/sh; commands from a fixed menu; the sentinel file lives outside the recorded cwd");
-    c.assume("acceptance despite an injected fault is judged by C01/C02/C06/C07/C15, not here");
+    c.assume("acceptance despite an injected fault is judged by C01/C02/C06/C07/C15, not here; what is judged here in every case is that no inspection of the layout carrying the fault was started");
     c.finish()
 }
 
